@@ -63,6 +63,8 @@ def int_eval(t, atoms):
         if a is None or b is None:
             return None
         try:
+            if t[1] in ('%', '//'):
+                return (a % b if t[1] == '%' else a // b) if b != 0 else None
             return {'+': a + b, '-': a - b, '*': a * b}.get(t[1]) if t[1] in '+-*' else None
         except Exception:
             return None
